@@ -3,6 +3,8 @@
 #ifndef TETL_CSTRING_ALGORITHM_HPP
 #define TETL_CSTRING_ALGORITHM_HPP
 
+#include <etl/_type_traits/is_constant_evaluated.hpp>
+
 namespace etl::detail {
 
 /// Three-way comparison of two characters as the C library compares them: narrow characters by
@@ -237,13 +239,30 @@ constexpr auto memset(CharT* const s, ValT const c, SizeT n) -> CharT*
 
 // Check original implementation. They use `__np_anyptrlt` which is not
 // portable. https://clc-wiki.net/wiki/C_standard_library:string.h:memmove
+//
+// Typed version, usable in constant expressions (no cast from void*): the direction of the copy is
+// found with equality comparisons there, because a relational comparison of pointers into different
+// arrays is unspecified and therefore not a constant expression.
 template <typename CharT, typename SizeT>
-constexpr auto memmove(void* dest, void const* src, SizeT n) -> CharT*
+constexpr auto memmove_typed(CharT* dest, CharT const* src, SizeT n) -> CharT*
 {
-    auto const* ps = static_cast<CharT const*>(src);
-    auto* pd       = static_cast<CharT*>(dest);
+    auto const* ps = src;
+    auto* pd       = dest;
 
-    if (ps < pd) {
+    auto backward = false;
+    if (etl::is_constant_evaluated()) {
+        // dest inside (src, src + n)
+        for (SizeT i{1}; i < n; ++i) {
+            if (pd == ps + i) {
+                backward = true;
+                break;
+            }
+        }
+    } else {
+        backward = ps < pd;
+    }
+
+    if (backward) {
         for (pd += n, ps += n; n-- != CharT(0);) {
             *--pd = *--ps;
         }
@@ -253,7 +272,13 @@ constexpr auto memmove(void* dest, void const* src, SizeT n) -> CharT*
         }
     }
 
-    return static_cast<CharT*>(dest);
+    return dest;
+}
+
+template <typename CharT, typename SizeT>
+constexpr auto memmove(void* dest, void const* src, SizeT n) -> CharT*
+{
+    return etl::detail::memmove_typed<CharT, SizeT>(static_cast<CharT*>(dest), static_cast<CharT const*>(src), n);
 }
 
 template <typename CharT, typename SizeT>
